@@ -31,6 +31,7 @@ RULES = {
     "C12.DRAIN": "every queued key is removed from keys and the queue cleared before the return",
     "C12.NONE": "Ready(None) only when empty, or ended == member count read before the scan (counter starts at 0)",
     "C12.EMPTY": "is_empty first; early Ready(None) exactly when empty",
+    "C12.CTOR": "with_capacity(c): slab, waker table, state table and recorded capacity all sized c, key set empty; new() = with_capacity(0)",
     "C12.VIEW": "observers and front-ends read the representation faithfully",
     "C12.POLL": "member polled only if Pending and armed; index from keys; finishing mark; stop after a yield",
 }
@@ -47,6 +48,7 @@ def run(ctx):
         grouplike.rule_reserve(ctx, M, gname, "C12.RESERVE")
         grouplike.rule_remove(ctx, M, gname, "C12.REMOVE")
         grouplike.rule_view(ctx, M, gname, "C12.VIEW")
+        grouplike.rule_ctor(ctx, M, gname, "C12.CTOR")
         u = grouplike.group_unit(M, gname)
         ctx.require(u is not None, "StreamGroup::poll_next_inner")
         none_guard = rule_none(ctx, M, u)
